@@ -174,15 +174,25 @@ theorem ri_add {s : TS} {sz : Int} {Hm Hp : Hist} (h : RI s sz Hm Hp) (t v : Int
 
 theorem ri_catchUp {s : TS} {sz : Int} {Hm Hp : Hist} (h : RI s sz Hm Hp) (now : Int) (hin : InI64 now) :
     RI (s.catchUp now) sz (Hp ++ Hm) [] ∧ (s.catchUp now).n = s.n := by
+  have key : ∀ s1 : TS, RI s1 sz (Hp ++ Hm) [] → s1.n = s.n →
+      RI { s1 with pendingTime := s1.end0 } sz (Hp ++ Hm) [] ∧ ({ s1 with pendingTime := s1.end0 } : TS).n = s.n := by
+    intro s1 h1 hn
+    obtain ⟨l0, rest, r⟩ := h1
+    have he : s1.end0 = l0.end_ := by unfold TS.end0; rw [r.lev]
+    refine ⟨⟨l0, rest, ⟨r.lev, r.size, r.linv, r.cap, ?_, ?_, by simp, r.hp_clean, r.hp_sum, r.last⟩⟩, hn⟩
+    · show s1.end0 ≤ l0.end_
+      rw [he]
+    · show s1.end0 % sz = 0
+      rw [he, ← r.size]; exact r.linv.grid
   unfold TS.catchUp
   by_cases c : s.end0 < now
   · rw [if_pos c]
     obtain ⟨a1, _, _, _, _, a6, _⟩ := ri_advance h now hin
     obtain ⟨m1, _, _, m4, _⟩ := ri_mergePending a1
-    exact ⟨m1, by rw [m4, a6]⟩
+    exact key _ m1 (by rw [m4, a6])
   · rw [if_neg c]
     obtain ⟨m1, _, _, m4, _⟩ := ri_mergePending h
-    exact ⟨m1, m4⟩
+    exact key _ m1 m4
 
 /-- The fresh / cleared state. -/
 theorem linv_fresh (n : Nat) (sz : Int) (hn : 1 ≤ n) (hsz : 0 < sz) (hZ : zeroTime % sz = 0) :
@@ -412,5 +422,149 @@ theorem range_exact_general (n : Nat) (sz : Int) (rest : List Int) (hn : 1 ≤ n
   have := obsIn_histList a b ops []
   simp only [sumIn] at this
   rw [this]
+
+
+/-! ### `pendingTime` stays in step with the finest level (after the repair of `Latest`/`LatestBuckets`) -/
+
+/-- `pendingTime = levels[0].end` and a positive finest resolution. -/
+def PE (s : TS) : Prop := s.pendingTime = s.end0 ∧ 0 < s.size0
+
+theorem merge_end_size (n : Nat) (o : Obs) (t : Int) (l : Level) :
+    (l.merge n o t).end_ = l.end_ ∧ (l.merge n o t).size = l.size := by
+  unfold Level.merge; simp only; split <;> exact ⟨rfl, rfl⟩
+
+theorem end0_mergeValue (s : TS) (o : Obs) (t : Int) :
+    (s.mergeValue o t).end0 = s.end0 ∧ (s.mergeValue o t).size0 = s.size0 ∧
+    (s.mergeValue o t).pendingTime = s.pendingTime := by
+  cases hl : s.levels with
+  | nil => simp [TS.mergeValue, TS.end0, TS.size0, hl]
+  | cons l r =>
+    obtain ⟨h1, h2⟩ := merge_end_size s.n o t l
+    simp [TS.mergeValue, TS.end0, TS.size0, hl, h1, h2]
+
+theorem end0_mergePending (s : TS) :
+    s.mergePending.end0 = s.end0 ∧ s.mergePending.size0 = s.size0 ∧ s.mergePending.pendingTime = s.pendingTime := by
+  unfold TS.mergePending
+  split
+  · obtain ⟨a, b, c⟩ := end0_mergeValue s s.pending s.pendingTime
+    exact ⟨a, b, c⟩
+  · exact ⟨rfl, rfl, rfl⟩
+
+theorem pe_mergePending {s : TS} (h : PE s) : PE s.mergePending := by
+  obtain ⟨a, b, c⟩ := end0_mergePending s
+  unfold PE; rw [a, b, c]; exact h
+
+theorem rotLoop_size (n : Nat) (t : Int) : ∀ (fuel : Nat) (l : Level), (rotLoop n fuel t l).size = l.size := by
+  intro fuel
+  induction fuel with
+  | zero => intro l; rfl
+  | succ k ih =>
+    intro l
+    show (if t > l.end_ then rotLoop n k t (l.rotate n) else l).size = l.size
+    split
+    · rw [ih]; rfl
+    · rfl
+
+theorem advanceTo_size (n : Nat) (t : Int) (l : Level) : (l.advanceTo n t).size = l.size := by
+  unfold Level.advanceTo
+  simp only
+  rw [rotLoop_size]
+  split <;> rfl
+
+theorem size0_advance (s : TS) (t : Int) : (s.advance t).size0 = s.size0 := by
+  unfold TS.advance
+  cases hl : s.levels with
+  | nil => rfl
+  | cons l0 rest =>
+    simp only
+    by_cases hc : t > l0.end_
+    · rw [if_neg (not_not.mpr hc)]
+      obtain ⟨rest', hr⟩ := advLevels_head s.n t l0 rest hc
+      unfold TS.size0
+      simp only [hl, hr]
+      exact advanceTo_size s.n t l0
+    · rw [if_pos hc]
+
+theorem pe_add {s : TS} (h : PE s) (o : Obs) (t : Int) : PE (s.addWithTime o t) := by
+  unfold TS.addWithTime
+  have h0 : PE (if t > s.lastAdd then { s with lastAdd := t } else s) := by
+    split
+    · exact h
+    · exact h
+  generalize (if t > s.lastAdd then { s with lastAdd := t } else s) = s0 at h0
+  simp only
+  split
+  · obtain ⟨a, b, _⟩ := end0_mergePending (s0.advance t)
+    refine ⟨rfl, ?_⟩
+    show 0 < ((s0.advance t).mergePending).size0
+    rw [b, size0_advance]; exact h0.2
+  · split
+    · exact h0
+    · obtain ⟨a, b, c⟩ := end0_mergeValue s0 o t
+      unfold PE; rw [a, b, c]; exact h0
+
+theorem pe_catchUp {s : TS} (h : PE s) (now : Int) : PE (s.catchUp now) := by
+  unfold TS.catchUp
+  refine ⟨rfl, ?_⟩
+  show 0 < ((if s.end0 < now then s.advance now else s).mergePending).size0
+  rw [(end0_mergePending _).2.1]
+  split
+  · rw [size0_advance]; exact h.2
+  · exact h.2
+
+theorem pe_clear {s : TS} (h : PE s) : PE s.clear := by
+  unfold PE TS.clear TS.end0 TS.size0 at *
+  cases hl : s.levels with
+  | nil => simp [hl] at h ⊢
+  | cons l r => simp [hl, Level.fresh] at h ⊢; exact h.2
+
+theorem pe_step {s : TS} (h : PE s) (op : Op) : PE (s.step op) := by
+  cases op with
+  | add t v => exact pe_add h _ t
+  | total => exact pe_mergePending h
+  | latest now level num => rw [show s.step (.latest now level num) = s.catchUp now from latest_state s now level num]; exact pe_catchUp h now
+  | latestBuckets now level num =>
+    rcases latestBuckets_state s now level num with e | e
+    · show PE (s.latestBuckets now level num).1; rw [e]; exact h
+    · show PE (s.latestBuckets now level num).1; rw [e]; exact pe_catchUp h now
+  | computeRange a b num =>
+    rcases computeRange_state s a b num with e | e
+    · show PE (s.computeRange a b num).1; rw [e]; exact h
+    · show PE (s.computeRange a b num).1; rw [e]; exact pe_mergePending h
+  | clear => exact pe_clear h
+
+/-- With `pendingTime` in step, no add is ever "behind an advanced level". -/
+theorem noAddBehind_of_pe (ops : List Op) : ∀ s : TS, PE s → noAddBehind s ops = true := by
+  induction ops with
+  | nil => intro s _; rfl
+  | cons op rest ih =>
+    intro s h
+    cases op with
+    | add t v =>
+      simp only [noAddBehind, Bool.and_eq_true, Bool.not_eq_true']
+      refine ⟨?_, ih _ (pe_step h _)⟩
+      unfold addBehind
+      simp only [decide_eq_false_iff_not, not_and]
+      intro h1
+      have := h.1; have := h.2
+      omega
+    | total => exact ih _ (pe_step h _)
+    | latest _ _ _ => exact ih _ (pe_step h _)
+    | latestBuckets _ _ _ => exact ih _ (pe_step h _)
+    | computeRange _ _ _ => exact ih _ (pe_step h _)
+    | clear => exact ih _ (pe_step h _)
+
+theorem pe_init (n : Nat) (sz : Int) (rest : List Int) (hsz : 0 < sz) : PE (TS.init n (sz :: rest)) := by
+  unfold PE TS.init TS.end0 TS.size0
+  simp [Level.fresh, hsz]
+
+/-- **Bucket-aligned ranges of the finest level are exact, for every history with in-range times.** -/
+theorem range_exact_full (n : Nat) (sz : Int) (rest : List Int) (hn : 1 ≤ n) (hsz : 0 < sz)
+    (hcap : sz * n ≤ maxDur) (hZ : zeroTime % sz = 0) (ops : List Op) (a b : Int)
+    (hin : timesInRange ops = true)
+    (hal : alignedFinest ((TS.init n (sz :: rest)).run ops) a b = true) :
+    (((TS.init n (sz :: rest)).run ops).range a b).2 = some ⟨obsIn a b 0 ops, false⟩ :=
+  range_exact_general n sz rest hn hsz hcap hZ ops a b hin
+    (noAddBehind_of_pe ops _ (pe_init n sz rest hsz)) hal
 
 end NetVerif.Proofs.TSRange
